@@ -424,6 +424,15 @@ pub fn run(r: &mut Runner) {
         // double-double neighbourhoods (0..16 ulps and a geometric tail; thorough: 0..80 and tail) of nice values and of
         // their images under every elementary function: pre-images of nice results, where a result may be snapped
         let mut nb = crate::fx::nice_neighbourhoods(quick);
+        // every exponent of the stated range with a thin set of fractions and low words, both signs (a rescaling step,
+        // an exponent-indexed table or a branch on the exponent field may treat one binade differently)
+        if quick {
+            let all: Vec<i32> = (-1000..=10).collect();
+            for w in crate::fx::grid_thin(&all, 1, 414) {
+                nb.push(w);
+                nb.push([-w[0], -w[1]]);
+            }
+        }
         // both sides of the end points of the stated ranges and of the documented internal thresholds
         nb.extend(crate::fx::edge_points(&[600.0, 700.0, 709.0, 710.0, 750.0, 745.0, 900.0, 1000.0, 1024.0, 1023.0, 1022.0, 1074.0, 1080.0, 0.70, 0.41, 2f64.powi(-8), 2f64.powi(-1000)], quick));
         let nn = nb.len();
